@@ -16,6 +16,9 @@ HANDLERS = {
     "lcd_py": ("harness.py.lcd_cmd", "run"),
     "kbd_py": ("harness.py.kbd_cmd", "run"),
     "mem_py": ("harness.py.mem_cmd", "run"),
+    "il": ("harness.py.il_cmd", "run"),
+    "exec_py": ("harness.py.exec_cmd", "run"),
+    "exec1": ("harness.py.exec_cmd", "run_nolog"),
 }
 
 
